@@ -21,9 +21,9 @@ func init() {
 			"distinct_nontrivial counts distinct (message shape, permutation) pairs of conflict-free messages in which at least one trip or vehicle is both described and referenced",
 		Cases: func(tier string) int {
 			if tier == "thorough" {
-				return 30000
+				return 30000 + len(rtSizeCases(tier))
 			}
-			return 3000
+			return 3000 + len(rtSizeCases(tier))
 		},
 		Run: runC07,
 		Assumptions: []string{
@@ -102,22 +102,29 @@ func alertDumps(rt *gtfs.Realtime) (ids []string, byID map[string]string) {
 
 func runC07(c *core.Ctx) {
 	r := c.R
-	if c.Index%4 == 3 {
+	sc := rtSizeCases(c.Tier)
+	if c.Index >= len(sc) && c.Index%4 == 3 {
 		c07Conflicting(c)
 		return
 	}
 	var f *rgen.Feed
-	for tries := 0; ; tries++ {
-		f = rgen.GenFeed(r, rgen.Opts{MaxTrips: 4, MaxVehs: 3, MaxAlerts: 3, MaxIDLess: 1, PassThroughSelectorsOnly: true})
-		if n := len(f.Msg.Entity); (n >= 2 && n <= 8) || tries > 20 {
-			break
-		}
-	}
-	n := len(f.Msg.Entity)
 	full, sample := 5, 60
 	if c.Thorough() {
 		full, sample = 6, 200
 	}
+	if c.Index < len(sc) {
+		f = rgen.GenFeed(r, sc[c.Index].opts)
+		sample = 10
+		c.Feature("size-sweep")
+	} else {
+		for tries := 0; ; tries++ {
+			f = rgen.GenFeed(r, rgen.Opts{MaxTrips: 4, MaxVehs: 3, MaxAlerts: 3, MaxIDLess: 1, PassThroughSelectorsOnly: true})
+			if n := len(f.Msg.Entity); (n >= 2 && n <= 8) || tries > 20 {
+				break
+			}
+		}
+	}
+	n := len(f.Msg.Entity)
 	// is something both described and referenced?
 	merges := 0
 	for _, e := range f.Msg.Entity {
